@@ -73,6 +73,9 @@ type Result struct {
 	Exhaustive    bool                      `json:"exhaustive"`
 	ModelCases    int                       `json:"model_cases"`
 	ExtraCoverage map[string]interface{}    `json:"extra_coverage"`
+	// obligations the driver itself checks (e.g. its own translator) and that no longer hold;
+	// the run continues so that the monitors can look for a failing input
+	Broken []string `json:"broken,omitempty"`
 }
 
 type Ctx struct {
